@@ -20,7 +20,7 @@ for i in ids:
         "id": i, "breaks_property": prop, "what_and_what_it_needs": what, "applies_to_repo_revision": base,
         "files": {"patch": "patch.diff", "demonstration": "demo_test.go.txt (copy as *_test.go into package dir '%s', go test -run '%s'%s)" % (pkg, run, " -race" if race else ""), "author_notes": "notes.md"},
         "confirmed": {k: ev.get(k) for k in ("patch_applies", "compiles", "suite_passes_with_change", "demo_unchanged_tree", "demo_with_change")},
-        "what_was_run": ["git worktree of /repo HEAD + git apply patch.diff", "go build ./...", "go test -vet=off -count=1 ./... (private network namespace)", ev.get("demo_cmd", ""),
+        "what_was_run": ["git worktree of /repo %s + git apply patch.diff" % base, "go build ./...", "go test -vet=off -count=1 ./... (private network namespace)", ev.get("demo_cmd", ""),
                          "bin/verif check <P> --tier quick with VERIF_REPO=<patched worktree> for P in %s" % checks],
         "checks": {p: {"exit": r["exit"], "signatures": r["signatures"][:3]} for p, r in ev.get("checks", {}).items()},
         "caught_by": ev.get("caught_by", []),
